@@ -785,6 +785,18 @@ TraceHgInsert ==
           /\ nodes' = R.nodes /\ ref' = R.ref /\ drift' = R.drift /\ stats' = R.stats
     /\ UNCHANGED << pst, D, dlv, sto, psto, rrv, meta, cev, ctx, base, last, pools, lostSet, evals, fames, sub, viol >>
 
+\* the specification, fed the same events with the same batching, computes exactly
+\* what the batched instance reported
+BatchExplained(x, o) ==
+    LET hb == BatchedRun(D, InitHG(AsSeq(meta.genesis), 0), AsSeq(x.ids), x.batch) IN
+    /\ ConfVals(hb, o)
+    /\ \A k \in 1..Len(o.rr) : o.rr[k].e \in DOMAIN hb.E /\ hb.E[o.rr[k].e].rr = o.rr[k].rr
+    /\ \A e \in DOMAIN hb.E : (hb.E[e].rr # -1) <=> (\E k \in 1..Len(o.rr) : o.rr[k].e = e)
+    /\ \A k \in 1..Len(o.fame) :
+          LET f == o.fame[k] IN
+          f.r \in DOMAIN hb.R /\ f.e \in DOMAIN hb.R[f.r].ev /\ hb.R[f.r].ev[f.e].f = f.f
+    /\ ConfBlocksLite(hb.out, o.blocks)
+
 TraceInstance ==
     /\ Line.a = "Instance"
     /\ \E V \in { IF Line.o.err # "" THEN {}      \* unsupported configuration (an error, not a result)
@@ -821,7 +833,17 @@ TraceInstance ==
                     ELSE IF Line.o.partial   \* some values not observable (evicted): blocks must be equal, the rest as far as seen
                     THEN ChecksD("C03", "Inv_C03_SameOutput", "partial-" \o Line.x.kind,
                                  Inv_C03_Prefix(ref, OutRec(Line.o)) /\ Len(Line.o.blocks) = Len(ref.blocks))
-                    ELSE ChecksD("C03", "Inv_C03_SameOutput", IF Line.x.batch # 1 THEN "batched-consensus-passes" ELSE Line.x.kind,
+                    ELSE IF Line.x.batch # 1
+                    THEN \* consensus passes batched: when the output differs from the reference,
+                         \* the specification re-executes the same batching (BatchedRun): a
+                         \* difference it reproduces is the known first-descendant-walk
+                         \* dependence, anything else is not explained by it
+                         IF Inv_C03_SameOutput(ref, OutRec(Line.o)) THEN {}
+                         ELSE ChecksD("C03", "Inv_C03_SameOutput",
+                                      IF "ids" \in DOMAIN Line.x /\ BatchExplained(Line.x, Line.o)
+                                      THEN "batched-consensus-passes/first-descendant-walk"
+                                      ELSE "batched-consensus-passes/unexplained", FALSE)
+                    ELSE ChecksD("C03", "Inv_C03_SameOutput", Line.x.kind,
                                  Inv_C03_SameOutput(ref, OutRec(Line.o))) } :
           viol' = AddCapped(viol, V)
     /\ stats' = [ stats EXCEPT !.lines = @ + 1, !.inserts = @ + Line.x.nins,
